@@ -23,10 +23,58 @@ static inline _Bool str_lt(const verif_str *a, const verif_str *b) { return str_
 static inline int str_compare_cstr(const verif_str *a, const char *s) { return str_cmp_bytes(a->p, a->n, s, str_len_c(s)); }
 static inline int str_compare_str(const verif_str *a, const verif_str *b) { return str_cmp_bytes(a->p, a->n, b->p, b->n); }
 #define STR_CSTR(a) ((a)->p)
+#define STR_SIZE(a) ((a)->n)
+#define STR_NPOS ((size_t)-1)
+/* a.compare(pos, len, str): the substring [pos, pos+len) clipped to a's size, against str
+   (pos > size() throws std::out_of_range: modelled as a failed obligation) */
+static inline int str_compare_sub(const verif_str *a, size_t pos, size_t len, const verif_str *b)
+{
+#ifdef VERIF_CBMC
+  __CPROVER_assert(pos <= a->n, "std::string model: compare(pos, ...) with pos <= size()");
+#endif
+  size_t rl = a->n - pos < len ? a->n - pos : len;
+  return str_cmp_bytes(a->p + pos, rl, b->p, b->n);
+}
+/* a.find(str, pos = 0): lowest position >= pos at which str occurs, npos if none */
+static inline size_t str_find3(const verif_str *a, const verif_str *b, size_t pos)
+{
+  if (b->n > a->n) return STR_NPOS;
+  for (size_t i = pos; i + b->n <= a->n; ++i)
+    {
+      _Bool ok = 1;
+      for (size_t j = 0; j < b->n; ++j)
+        if (a->p[i + j] != b->p[j]) { ok = 0; break; }
+      if (ok) return i;
+    }
+  return STR_NPOS;
+}
+/* a.rfind(str, pos = npos): highest position at which str occurs, npos if none */
+static inline size_t str_rfind3(const verif_str *a, const verif_str *b, size_t pos)
+{
+  if (b->n > a->n) return STR_NPOS;
+  size_t i = a->n - b->n;
+  if (pos < i) i = pos;
+  for (;; --i)
+    {
+      _Bool ok = 1;
+      for (size_t j = 0; j < b->n; ++j)
+        if (a->p[i + j] != b->p[j]) { ok = 0; break; }
+      if (ok) return i;
+      if (i == 0) break;
+    }
+  return STR_NPOS;
+}
 static inline int verif_strcmp(const char *a, const char *b)
 {
   size_t i = 0;
   while (a[i] != 0 && a[i] == b[i]) ++i;
   return (int)(unsigned char)a[i] - (int)(unsigned char)b[i];
 }
+/* the position argument of find/rfind has a default (0 / npos); the lowering drops defaulted arguments of
+   modelled callees, so the model supplies them */
+#define STR_PICK3(_1, _2, _3, NAME, ...) NAME
+#define str_find2(a, b) str_find3(a, b, 0)
+#define str_rfind2(a, b) str_rfind3(a, b, STR_NPOS)
+#define str_find(...) STR_PICK3(__VA_ARGS__, str_find3, str_find2, 0)(__VA_ARGS__)
+#define str_rfind(...) STR_PICK3(__VA_ARGS__, str_rfind3, str_rfind2, 0)(__VA_ARGS__)
 #endif
